@@ -370,18 +370,29 @@ def gen_latency_script(rng, nhosts=None):
     n = cfg["nhosts"]
     ids = IdGen()
     steps = [WARMUP()]
+    glob = [cfg["min_ms"], cfg["max_ms"]]
+    per = {}
     nsteps = rng.randrange(6, 14)
     for k in range(nsteps):
         ctl, hosts = [], {}
         r = rng.random()
+        # keep every effective configuration valid (max >= min): the setters do not validate
         if r < 0.2:
             a, b = rng.sample(range(n), 2)
-            ctl.append(["set_link_latency", rand_sel(rng, a), rand_sel(rng, b), rng.choice([0, 1, 2, 3, 7, 15])])
+            v = rng.choice([0, 1, 2, 3, 7, 15])
+            ctl.append(["set_link_latency", rand_sel(rng, a), rand_sel(rng, b), v])
+            per[(min(a, b), max(a, b))] = [v, v]
         elif r < 0.35:
             a, b = rng.sample(range(n), 2)
-            ctl.append(["set_link_max", rand_sel(rng, a), rand_sel(rng, b), cfg["min_ms"] + rng.choice([0, 1, 4, 30])])
+            key = (min(a, b), max(a, b))
+            cur = per.get(key) or list(glob)
+            v = cur[0] + rng.choice([0, 1, 4, 30])
+            ctl.append(["set_link_max", rand_sel(rng, a), rand_sel(rng, b), v])
+            per[key] = [cur[0], v]
         elif r < 0.45:
-            ctl.append(["set_max", cfg["min_ms"] + rng.choice([0, 2, 10, 40])])
+            v = glob[0] + rng.choice([0, 2, 10, 40])
+            ctl.append(["set_max", v])
+            glob[1] = v
         if rng.random() < 0.2:
             ctl.append(["links"])
         rand_sends(rng, n, ids, hosts, [0, 1, 2, 4, 6])
